@@ -124,7 +124,10 @@ class DefaultDictNode(Node):
         }
 
     def _construct(self):
-        instance = defaultdict(None, self.children["main"].construct())
+        # build the class that was dumped (and audited): defaultdict itself or a
+        # subclass of it
+        main = self.children["main"].construct()
+        instance = gettype(self.module_name, self.class_name)(None, main)
         instance.default_factory = self.children["default_factory"].construct()
         return instance
 
